@@ -28,6 +28,16 @@ CLAIMED.update({
             "sign class; div_rounded wrappers for Decimal/int/int-by-int shapes and reference forms, n > 18 rejection, mul_rounded, quantize "
             "(wiring to div_rounded(.., 0) and exact multiplication).", "2 C04"),
 })
+CLAIMED.update({
+    "C08": ("eq / partial_cmp / cmp for Decimal x Decimal over all 361 scale pairs (incl. overflowing alignments) and the 2x9 integer shapes: result equals "
+            "the comparison of x*10^q with y*10^p over the integers; partial_cmp never None, cmp never panics.", "2 C08"),
+    "C10": ("rem / checked_rem / %= for all shapes and 361 scale pairs incl. the stepwise fallback loop (unrolled with unwinding assertion): the returned "
+            "value satisfies X = t*Y + R, |R| < |Y|, sign(R) in {0, sign X} with a witness t assembled from the implementation's own quotient digits; "
+            "failures only for a zero divisor or the documented up-scaling overflow.", "2 C10"),
+    "C14": ("From<T>, TryFrom<u128>, TryFrom<Decimal> for all 10 integer targets and all scales: Ok / NotAnIntValue / ValueOutOfRange exactly as specified.", "2 C14"),
+    "C15": ("floor/ceil/trunc/fract/abs/neg/predicates/magnitude from the MIR for all coefficients and scales, num-traits wrappers on the feature MIR; "
+            "i128_magnitude and Decimal::magnitude bit-precisely for all inputs by two Kani harnesses.", "2 C15"),
+})
 NA = {}
 
 def main():
@@ -58,6 +68,7 @@ def main():
                   "baseline_off_cmd": "cd /repo && cargo test --workspace --no-fail-fast --offline", "source_commits": [], "add_only": True},
         "engines": [
             {"name": "mir2smt", "path": "/verif/mir2smt", "serves_properties": sorted(CLAIMED), "kind_free_text": "MIR -> SMT symbolic executor (z3 5.1, Int theory), path-wise with optional state merging"},
+            {"name": "kani", "path": "/verif/kani", "serves_properties": ["C15"], "kind_free_text": "Kani 0.68 / CBMC 6.11 proof harnesses over the real crate (path dependency)"},
         ],
         "checks": checks,
         "not_applicable": na,
